@@ -41,8 +41,8 @@ def generate(ctx: Ctx, seed_offset=0):
         fam_mem = tlc.check(ctx, 'store/StoreGen', 'store/Gen_StoreMem.cfg', sub=None if ctx.quick else {'D = 3': 'D = 4'})['emitted']
     if ctx.pid == 'C08':
         fam_lookup = tlc.check(ctx, 'store/StoreGen', 'store/Gen_StoreLookup.cfg', sub=None if ctx.quick else {'D = 4': 'D = 5'})['emitted']
-        # the lookup family under both identifier renderings (StoreGen.tla IdRenderings)
-        fam_lookup = fam_lookup + [dict(b, idr='small' if b.get('idr') == 'wide' else 'wide') for b in fam_lookup]
+        # the lookup family under every identifier rendering (StoreGen.tla IdRenderings)
+        fam_lookup = [dict(b, idr=r) for b in fam_lookup for r in ('small', 'wide', 'zero_based')]
     fam_rej = []
     if ctx.pid == 'C10':
         fam_rej = tlc.check(ctx, 'store/StoreGen', 'store/Gen_StoreRej.cfg', sub=None if ctx.quick else {'D = 3': 'D = 4'})['emitted']
